@@ -175,14 +175,11 @@ static int icmd_pos;		/* icmd[] position */
 /* read s before reading from the terminal */
 void term_push(char *s, int n)
 {
-	/* drop what has been read; s goes in front of what has not */
-	memmove(ibuf, ibuf + ibuf_pos, ibuf_cnt - ibuf_pos);
-	ibuf_cnt -= ibuf_pos;
-	ibuf_pos = 0;
 	if (n > sizeof(ibuf) - ibuf_cnt)	/* never a part of a command */
 		return;
-	memmove(ibuf + n, ibuf, ibuf_cnt);
-	memcpy(ibuf, s, n);
+	/* s goes in front of what has not been read */
+	memmove(ibuf + ibuf_pos + n, ibuf + ibuf_pos, ibuf_cnt - ibuf_pos);
+	memcpy(ibuf + ibuf_pos, s, n);
 	ibuf_cnt += n;
 #ifdef NEATVI_VERIF
 	if (verif_on()) {
